@@ -374,3 +374,5 @@ def rules(ctx):
     merge_guards(ctx)
     wire_uniqueness(ctx)
     no_mutation(ctx)
+    from . import c02 as _c02
+    _c02.zero_is_identity(ctx, "C03.generic-zero-test")
